@@ -11,7 +11,7 @@ T = r'(?P<t>u8|i8|wu8|wi8|u16|i16|u32|i32|u64|i64|usize|isize|f32|f64)'
 V = r'(?P<v>vec2|vec3|vec4|vec8|rgba|extent2)'
 SMALL8 = ('u8', 'i8', 'wu8', 'wi8')
 SIGNED = ('i8', 'i16', 'i32', 'i64', 'isize', 'wi8')
-L645 = 'src/ops.rs:645 (`self += range_size * ((lower-self)/range_size + Self::one())` in wrap_impl_sint::wrapped_between, reported by Kani at the macro call site ops.rs:676)'
+L645 = 'src/ops.rs:645 (`self += range_size * ((lower-self)/range_size + Self::one())` in wrap_impl_sint::wrapped_between; Kani reports the overflow checks at this line)'
 SAFE = 'v >= lo or ((lo-v)/(hi-lo)+1)*(hi-lo) <= MAX (exact no-overflow region; for wrapped lo=0,hi=upper; for pingpong lo=0,hi=2*upper)'
 
 
@@ -110,7 +110,7 @@ def _(m):
     if t == 'i8':
         return E('quick', 300, wrap_clause(op) + ' (function contract, full domain)', wrap_dom(op, t), known_failing=sint_fail(op, t))
     if t in SIGNED:
-        return None   # i16..isize: fails as expected, but only after 650-1400 s (i16); replaced by *_full_domain_no_overflow
+        return None   # i16..isize: fails as expected, but only after 650-1400 s (i16); replaced by *_full_domain_const_bounds
     if t == 'u8':
         return E('quick', 120, wrap_clause(op) + ' (function contract, full domain)', wrap_dom(op, t))
     if t == 'u16' and op == 'wrapped':
@@ -118,11 +118,12 @@ def _(m):
     return None   # wider unsigned full-domain contracts: no verdict within 200..2400 s -> not registered
 
 
-@rule('(?P<op>wrapped|wrapped_between|pingpong)_' + T + '_full_domain_no_overflow')
+@rule('(?P<op>wrapped|wrapped_between|pingpong)_' + T + '_full_domain_const_bounds')
 def _(m):
     t, op = m['t'], m['op']
-    return E('quick', 300, op + ': no intermediate overflow (and result in range) for every input whose result is representable, full domain',
-             wrap_dom(op, t), known_failing=sint_fail(op, t))
+    l = {'wrapped': 'upper in {1,2}', 'wrapped_between': '(lower,upper) in {(0,1),(MAX-3,MAX)}', 'pingpong': 'upper in {1,3}'}[op]
+    return E('quick', 300, wrap_clause(op) + ' with no intermediate overflow, for EVERY v of the type (no safe-region restriction)',
+             'all v in %s; %s' % (TYN[t], l), bounded='bounds restricted to the listed constants (v unrestricted)', known_failing=sint_fail(op, t))
 
 
 @rule('contract_(?P<op>wrapped|wrapped_between|pingpong)_' + T + '_safe_region')
